@@ -94,7 +94,11 @@ where
             let indent = self.make_indent();
             for c in cg.iter() {
                 let first_char = c.fragment.chars().nth(0).unwrap_or('\0');
-                if !first_char.is_whitespace() {
+                if c.fragment.trim().is_empty() {
+                    // A blank comment stays blank. Adding the separating
+                    // space would be trimmed again on the next format.
+                    writeln!(self.w, "{}//", indent)?;
+                } else if !first_char.is_whitespace() {
                     writeln!(self.w, "{}// {}", indent, c.fragment.trim_end())?;
                 } else {
                     writeln!(self.w, "{}//{}", indent, c.fragment.trim_end())?;
